@@ -873,7 +873,7 @@ class Ctx:
         return self.named(SymReal(z3.If(ct, la.t, lb.t), la.sz + lb.sz + 2))
 
     # ------------------------------------------------------------------ harness-side helpers (mode independent)
-    def eq(self, a, b, rtol=1e-7, atol=0.0):
+    def eq(self, a, b, rtol=1e-7, atol=1e-11):
         if self.mode == "concrete":
             a = float(a); b = float(b)
             return abs(a - b) <= atol + rtol * max(abs(a), abs(b))
@@ -881,7 +881,7 @@ class Ctx:
             return _fplift(a) == b
         return SymReal.lift(a) == b
 
-    def le(self, a, b, rtol=1e-7, atol=0.0):
+    def le(self, a, b, rtol=1e-7, atol=1e-11):
         if self.mode == "concrete":
             a = float(a); b = float(b)
             return a <= b + atol + rtol * max(abs(a), abs(b))
